@@ -16,6 +16,7 @@ def main(tier, seed):
     modes = ["none", "2-point", "3-point", "cs"]
     for m in modes:
         jobs.append((T15, dict(L=2, jac=m)))
+        jobs.append((T15, dict(L=1, jac=m, rel="none")))
         jobs.append((TS, dict(maxiter=1, maxfun=6, maxls=2, ftol="sym", ls_mode="contract", ls_tmax=2, jac_mode=m, groups=["C16"])))
         jobs.append((TS, dict(maxiter=2, maxfun=8, maxls=1, ftol="sym", ls_mode="lean", jac_mode=m, callback_kind="choose", groups=["C16"])))
     jobs.append((TS, dict(maxiter=1, maxfun=6, maxls=2, ftol="sym", ls_mode="contract", ls_tmax=2, jac_mode="2-point", scaler=1, groups=["C16"])))
